@@ -358,7 +358,11 @@ func hdrClass(c caseT) string {
 				for _, lit := range strings.Split(opt, ",") {
 					w := strings.TrimPrefix(lit, "!")
 					if !validTag(w) {
-						return "hdr-malformed-word" // empty word (yaegi panics), "!!x", "!"
+						// empty words, "!" and "!!x" never match for either side since the repair of
+						// buildTagOk (F28 fixed); a word with other invalid characters is compared as a
+						// plain name by yaegi and is `ignore` for the toolchain: both false unless it is
+						// a build tag, which the generator never produces
+						continue
 					}
 					if specialWord(c.Ctx, w) {
 						return "hdr-special-word"
